@@ -18,7 +18,7 @@ CHECKS = {
         engine="e2e",
         category="exploration",
         technique="property-based scenario testing on the real dquic client+server over simnet (virtual time): generated sets of pending operations x life-cycle phase x close trigger, with an injected-frame hook to provoke a protocol error",
-        text="Each case leaves a generated combination of operations pending on both endpoints (stream read, blocked write, flush, shutdown, open bidi/uni at the stream limit, accept bidi/uni, handshaked, terminated), reaches a generated phase (before the first flight, mid-handshake, some ms after the handshake) and fires a trigger: client close, server close, both closes racing within +-5 ms, an injected STREAM_STATE violation, a black hole, or plain idleness with generated idle timeouts on both sides. Oracle: both sides terminate within 1.5 s + 2 RTT virtual of a close/error, with the application's code (or the RFC 9000 10.2.3 APPLICATION_ERROR conversion at the peer) and the same error on every later query; every pending operation and every operation started afterwards fails within 1 s; none succeeds after termination; an idle connection ends no earlier than the negotiated timeout after the last datagram and no later than 2x that after going quiet, and never when both sides advertise none. 6 000 scenarios quick, 200 000 thorough.",
+        text="Each case leaves a generated combination of operations pending on both endpoints (stream read, blocked write, flush, shutdown, open bidi/uni at the stream limit, accept bidi/uni, handshaked, terminated), reaches a generated phase (before the first flight, mid-handshake, some ms after the handshake) and fires a trigger: client close, server close, both closes racing within +-5 ms, an injected STREAM_STATE violation, a black hole, or plain idleness with generated idle timeouts on both sides. Oracle: both sides terminate within 1.5 s + 2 RTT virtual of a close/error, with the application's code (or the RFC 9000 10.2.3 APPLICATION_ERROR conversion at the peer) and the same error on every later query; every pending operation and every operation started afterwards fails within 1 s; none succeeds after termination; an idle connection ends no earlier than the negotiated timeout after the last datagram and no later than 2x that after going quiet, and never when both sides advertise none. 6 000 scenarios quick, 200 000 thorough. Idleness scenarios also run with a network that keeps re-delivering every datagram of one direction every 200 ms for 50 s (optionally every second copy corrupted): such packets are not received and processed successfully, so the idle timeout must fire all the same.",
         note="One current-thread runtime per case (FIFO wake order). Monotone state is observed through handshaked()/terminated() only (no qlog). 'No application data emitted after the transition' is covered at frame level by C01/C09 (nothing is loaded after on_conn_error), not on the wire here.",
         design_ref="DESIGN.md §2.1, §3 C17",
     ),
@@ -98,7 +98,7 @@ CHECKS = {
         engine="e2e",
         category="fault_enumeration",
         technique="property-based fault injection: proptest-generated fault schedules, workloads and transport parameters run on the real dquic client+server over an in-memory network under tokio virtual time; oracle = data prefix-equality, no panic, no send storm, completion / no-hang by profile",
-        text="Each case runs the unmodified client and server stacks end to end (TLS handshake, packet protection, loss recovery) over simnet with a generated schedule of drop / delay / duplicate / replay / reflect-to-sender / bit-flip / truncate / replace-by-garbage faults per datagram index, pseudo-random loss, or a black hole, with generated flow-control/stream-count/idle parameters and 0-5 uni/bidi streams opened by either side. Safety clauses are asserted on every case; completion only where faults are strictly bounded (<=6 loss-equivalent datagrams); no-hang where a sound virtual-time bound exists. 2400 cases quick, 60 000 thorough; failures shrink to a minimal schedule/workload.",
+        text="Each case runs the unmodified client and server stacks end to end (TLS handshake, packet protection, loss recovery) over simnet with a generated schedule of drop / delay / duplicate / replay / long-lasting replay with corrupted copies / reflect-to-sender / bit-flip (anywhere, or in the first 32 header bytes) / truncate / replace-by-garbage faults per datagram index, pseudo-random loss, or a black hole, with generated flow-control/stream-count/idle parameters and 0-5 uni/bidi streams opened by either side. Safety clauses are asserted on every case; completion only where faults are strictly bounded (<=6 loss-equivalent datagrams); no-hang where a sound virtual-time bound exists. 2400 cases quick, 60 000 thorough; failures shrink to a minimal schedule/workload.",
         note="One current-thread runtime per case with paused clock (FIFO wake order): multi-thread interleavings are not explored. Ciphertext is not reproducible (library RNG) and never enters the oracle. 'Tampered packets are never accepted' is decided behaviourally (a tampered datagram must not break a connection that survives the same schedule with drops instead) plus C06 at packet level. Perpetual-loss profiles assert safety only.",
         design_ref="DESIGN.md §2.1, §3 C02",
     ),
